@@ -20,7 +20,7 @@ tvars == <<lvars, l, postOf, cbal, obs>>
 
 Trace == ndJsonDeserialize(TraceFile)
 
-NoObs == [h |-> 0, liab |-> <<>>, rew |-> <<>>]
+NoObs == [h |-> 0, liab |-> <<>>, rew |-> <<>>, time |-> 0, rel |-> <<>>, app |-> <<>>, pays |-> <<>>]
 
 TInit == LInit /\ l = 1 /\ postOf = <<>> /\ cbal = <<>> /\ obs = NoObs /\ TLCSet(1, 1)
 
@@ -105,12 +105,26 @@ TMom == /\ IsEvent("Mom")
         /\ \A i \in 1..Len(E.cpost) : Get(cbal', <<E.cpost[i].a, E.cpost[i].t>>, BZero) = E.cpost[i].v
         /\ postOf' = [b \in DOMAIN postOf \ {E.bids[i] : i \in 1..Len(E.bids)} |-> postOf[b]]
         /\ RewardStep(obs.rew, E.rew)
-        /\ obs' = [h |-> E.h, liab |-> E.liab, rew |-> E.rew]
+        /\ obs' = [h |-> E.h, liab |-> E.liab, rew |-> E.rew, time |-> E.time, rel |-> E.rel, app |-> E.app, pays |-> E.pays]
 
 TNext == TReset \/ TGenesis \/ TSend \/ TRecv \/ TMisRecv \/ TCRecv \/ TMom
 
 \* C10 Backed: at every momentum each contract holds at least what it owes (confirmed state)
 Backed == \A i \in 1..Len(obs.liab) : BLeq(obs.liab[i].owed, Get(cbal, <<obs.liab[i].c, obs.liab[i].t>>, BZero))
+
+\* C10 ReleasedRight: every locked entry that is gone (or smaller) after a momentum was released by the rule of its kind -
+\* paid by its contract, in its token, at least its amount, to the entitled party, not before its lock allows; a QSR deposit
+\* may instead have been consumed by a registration of the same owner. (The time compared is the confirming momentum's,
+\* which is not earlier than the one the contract executed against: the rule is sound, at most one momentum lenient.)
+PaidTo(r, a) == \E i \in 1..Len(obs.pays) : LET p == obs.pays[i] IN p.c = r.c /\ p.to = a /\ p.t = r.t /\ BLeq(r.amt, p.amt)
+ReleaseOK(r) ==
+  CASE r.kind = "fusion" -> PaidTo(r, r.owner) /\ obs.h >= r.unlock
+    [] r.kind \in {"stake", "liquidity-stake"} -> PaidTo(r, r.owner) /\ obs.time >= r.unlock
+    [] r.kind = "htlc" -> PaidTo(r, r.alt) \/ (PaidTo(r, r.owner) /\ obs.time >= r.unlock)
+    [] r.kind = "qsr-deposit" -> PaidTo(r, r.owner)
+                                  \/ \E i \in 1..Len(obs.app) : obs.app[i].owner = r.owner /\ obs.app[i].kind \in {"pillar", "sentinel-qsr"}
+    [] OTHER -> PaidTo(r, r.owner)                      \* pillar and sentinel collateral
+ReleasedRight == \A i \in 1..Len(obs.rel) : ReleaseOK(obs.rel[i])
 
 HighWater == TLCSet(1, IF TLCGet(1) > l THEN TLCGet(1) ELSE l)
 Accepted == IF TLCGet(1) = Len(Trace) + 1 THEN TRUE ELSE PrintT(<<"REJECTED_AT", TLCGet(1)>>) /\ FALSE
